@@ -505,6 +505,23 @@ func TestWholeFramesHuge(t *testing.T) {
 				hx.Failf(t, desc, "the frame following a %d-byte frame was not read back intact: %v %q", size, err, next.Payload)
 				return
 			}
+			// the same frame cut inside its payload (stream ends / transport fails) is never returned as whole
+			hl := len(ref.EncodeHeader(h))
+			for _, keep := range []int{0, 1, MiB - 1, MiB, MiB + 1, size / 2, size - 1} {
+				if keep >= size {
+					continue
+				}
+				for _, end := range []error{nil, tx.ErrInjected} {
+					cut := tx.NewSrc(nil, nil)
+					cut.Data, cut.End = stream[:hl+keep], end
+					n++
+					if f, err := ws.ReadFrame(cut); err == nil {
+						hx.Failf(t, map[string]interface{}{"payload": size, "masked": masked, "payload_bytes_present": keep, "ends_with": fmt.Sprint(end)},
+							"ReadFrame reported success for a %d-byte frame of which only %d payload bytes arrived (returned %d)", size, keep, len(f.Payload))
+						return
+					}
+				}
+			}
 		}
 	}
 	hx.EvalN(n)
